@@ -245,7 +245,12 @@ def promotable_forms(bs, d):
         by = int(d, 2).to_bytes(len(d) // 8, 'big') if d else b''
         forms += [('bytes', lambda: by, repr(by)), ('bytearray', lambda: bytearray(by), f"bytearray({by!r})"),
                   ('memoryview', lambda: memoryview(by), f"memoryview({by!r})"),
-                  ('array_B', lambda: array.array('B', by), f"__import__('array').array('B', {by!r})")]
+                  ('array_B', lambda: array.array('B', by), f"__import__('array').array('B', {by!r})"),
+                  ('bytesio', lambda: __import__('io').BytesIO(by), f"__import__('io').BytesIO({by!r})"),
+                  # a BytesIO whose cursor is not at the start (already read, or filled by write()): its whole content is the operand
+                  ('bytesio_read', lambda: (lambda f: (f.read(), f)[1])(__import__('io').BytesIO(by)), f"(lambda f: (f.read(), f)[1])(__import__('io').BytesIO({by!r}))"),
+                  ('bytesio_written', lambda: (lambda f: (f.write(by), f)[1])(__import__('io').BytesIO()), f"(lambda f: (f.write({by!r}), f)[1])(__import__('io').BytesIO())"),
+                  ('memoryview_strided', lambda: memoryview(RT.interleave(by))[::2], f"memoryview({RT.interleave(by)!r})[::2]")]
     if len(d) % 4 == 0 and d:
         hx = '0x' + format(int(d, 2), f'0{len(d) // 4}x')
         forms.append(('hexstr', lambda: hx, repr(hx)))
